@@ -576,6 +576,47 @@ func c08GraphUnit() *Unit {
 				}
 			}
 		}
+		// the dir: of an included task that is anchored at one of the special directory variables,
+		// in every spelling of the template, for both include forms
+		real, _ := filepath.EvalSymlinks(dir)
+		for _, sp := range []struct{ tmpl, want string }{
+			{`{{.TASKFILE_DIR}}/out`, "lib/out"}, {`{{ .TASKFILE_DIR }}/out`, "lib/out"}, {`{{joinPath .TASKFILE_DIR "out"}}`, "lib/out"}, {`{{printf "%s/out" .TASKFILE_DIR}}`, "lib/out"},
+			{`{{.ROOT_DIR}}/out`, "out"}, {`{{toSlash .ROOT_DIR}}/out`, "out"}, {`{{joinPath .ROOT_DIR "out"}}`, "out"},
+			{`{{.USER_WORKING_DIR}}/out`, "out"}, {`{{joinPath .USER_WORKING_DIR "out"}}`, "out"},
+		} {
+			for _, form := range []string{"plain", "mapping", "mapping-dir"} {
+				inc := "  inc: ./lib/inc.yml\n"
+				switch form {
+				case "mapping":
+					inc = "  inc:\n    taskfile: ./lib/inc.yml\n"
+				case "mapping-dir":
+					inc = "  inc:\n    taskfile: ./lib/inc.yml\n    dir: ./sub\n"
+				}
+				files := map[string]string{
+					"Taskfile.yml": "version: '3'\nincludes:\n" + inc,
+					"lib/inc.yml":  "version: '3'\ntasks:\n  t:\n    dir: '" + sp.tmpl + "'\n    cmds:\n      - printf '%s\\n' \"FULLPWD=$PWD\"\n",
+					"sub/.keep":    "",
+				}
+				c08Write(dir, files)
+				lines, code, errs, pan := c08Run(dir, "inc:t")
+				n++
+				want := "FULLPWD=" + filepath.Join(real, sp.want)
+				got := strings.Join(lines, "|")
+				if r2, err := filepath.EvalSymlinks(strings.TrimPrefix(got, "FULLPWD=")); err == nil {
+					got = "FULLPWD=" + r2
+				}
+				if pan != "" || code != 0 || got != want {
+					label := "special-dir-in-included-task:" + form
+					v := vlab.V("C08", "graph_case", label, fmt.Sprintf("include form %s, task dir %q: ran in %q (status %d %s %s), expected %q", form, sp.tmpl, got, code, firstN(errs, 100), firstN(pan, 60), want))
+					v.Scenario = name
+					v.Input = map[string]any{"files": files, "request": "inc:t"}
+					res.SigCounts[v.Sig]++
+					if res.SigCounts[v.Sig] == 1 {
+						res.Violations = append(res.Violations, v)
+					}
+				}
+			}
+		}
 		res.Extra["samples"] = samples
 		res.Stats = vlab.Stats{Scenario: name, Execs: n, States: n, Transitions: n, Outcomes: 3, Exhaustive: true}
 		return res
